@@ -109,6 +109,9 @@ PARTS = {
         {"test": "TestVfC02bPipeline",
          "quick": {"checks": 12000, "shards": 8, "timeout": 600},
          "thorough": {"checks": 200000, "shards": 16, "timeout": 2400}},
+        {"test": "TestVfC02cBatch",
+         "quick": {"checks": 8000, "shards": 4, "timeout": 600},
+         "thorough": {"checks": 400000, "shards": 16, "timeout": 2400}},
     ],
     "C20": [
         {"test": "TestVfC20bNode", "inflight": True, "stall_is_violation": True,
